@@ -29,6 +29,21 @@ def distributions(rep, rng, tier):
             rep.violation({"dist": name, "what": "tracing raises", "error": type(ex).__name__}, f"{name}: {type(ex).__name__}: {str(ex)[:200]}")
             continue
         rep.count(1, ("dist", name))
+        # flatten / unflatten and leaf serialisation into a structurally identical model with other leaf values
+        try:
+            import io
+            leaves, td = jax.tree_util.tree_flatten(d)
+            d_flat = jax.tree_util.tree_unflatten(td, leaves)
+            buf = io.BytesIO()
+            eqx.tree_serialise_leaves(buf, d)
+            buf.seek(0)
+            like = jax.tree_util.tree_map(lambda l: l * 0 + 0.321 if eqx.is_inexact_array(l) else l, d)
+            d_ser = eqx.tree_deserialise_leaves(buf, like)
+            for nm, dd in (("flatten/unflatten", d_flat), ("serialise/deserialise", d_ser)):
+                if not np.array_equal(np.asarray(dd.log_prob(X, c)), e, equal_nan=True) or not np.array_equal(np.asarray(dd.sample(k, (2,), c)), s1):
+                    rep.violation({"dist": name, "what": f"{nm} copy behaves differently"}, f"{name}: the {nm} copy gives different log_prob / sample")
+        except Exception as ex:  # noqa: BLE001
+            rep.violation({"dist": name, "what": "serialisation raises", "error": type(ex).__name__}, f"{name}: {type(ex).__name__}: {str(ex)[:200]}")
         if not (np.allclose(e, j, rtol=1e-9, atol=1e-12) and np.allclose(e, v, rtol=1e-9, atol=1e-12)):
             rep.violation({"dist": name, "what": "jit / vmap != eager"}, f"{name}: log_prob eager {e}, jit {j}, vmap {v}")
         if not np.array_equal(s1, s2) or not np.allclose(s1, sj, rtol=1e-9, atol=1e-12):
